@@ -427,7 +427,7 @@ func (t *v2T) pair(a, b *v2Res, kind string, dtok int, lmap []int, nocopy bool, 
 		notices = []int{}
 	}
 	ev := map[string]interface{}{"ev": "pair", "a": a.In, "b": b.In, "kind": kind, "dtok": dtok, "lmap": lmap, "nocopy": nocopy, "notices": notices,
-		"nolines": false, "align": "", "alignclass": ""}
+		"nolines": false, "align": "", "alignclass": "", "split": 0}
 	for k, v := range extra {
 		ev[k] = v
 	}
